@@ -49,7 +49,8 @@ def _generate_model_code(
     source: list[str] = []
     # Model components
     variables = model.get_initial_conditions()
-    parameters = model.get_parameter_values()
+    # a copy: the model hands out its cached dict, which has to keep the free parameters
+    parameters = dict(model.get_parameter_values())
 
     if imports is not None:
         source.extend(imports)
